@@ -431,6 +431,8 @@ class Ev:
             if kind == "classattr":
                 m = self.model.mods[owner.split(":")[0]]
                 return self.eval(f, {}, m)
+        if isinstance(v, bool) and name in ("any", "all", "item"):
+            return BoundLib("identity_method", v)
         if isinstance(v, str) and name in STR_METHODS:
             return BoundLib(f"str.{name}", v)
         if isinstance(v, PairList) and name in ("items", "keys", "values"):
@@ -892,6 +894,11 @@ class Ev:
         return result
 
     def compare(self, op, a, b, n, mod):
+        if hasattr(a, "sym_compare"):
+            return a.sym_compare(self, op, b, False, n, mod)
+        if hasattr(b, "sym_compare"):
+            return b.sym_compare(self, op, a, True, n, mod)
+
         def const(v):
             if isinstance(v, LibV):
                 return True
@@ -2664,6 +2671,8 @@ def lib_any(ev, a, k, n, mod):
     v = a[0]
     if isinstance(v, bool):
         return v
+    if hasattr(v, "sym_any"):
+        return v.sym_any(ev, n, mod)
     if isinstance(v, (CondV, TolCond)):
         return v
     if isinstance(v, Tup):
@@ -2683,7 +2692,13 @@ def lib_all(ev, a, k, n, mod):
 
 
 def lib_enumerate(ev, a, k, n, mod):
-    return Tup([Tup([sp.Integer(i), x]) for i, x in enumerate(ev.iterate(a[0], n, mod))], "list")
+    start = _const_int(k.get("start", a[1] if len(a) > 1 else sp.Integer(0)))
+    if getattr(a[0], "elementwise_seq", False) and hasattr(a[0], "sym_enumerate") and start == 0:
+        return a[0].sym_enumerate(ev, n, mod)        # one summarised iteration: (all-rows index, element)
+    return Tup([Tup([sp.Integer(i), x]) for i, x in enumerate(ev.iterate(a[0], n, mod), start)], "list")
+
+
+lib_enumerate.kw = {"start"}
 
 
 def lib_astype(ev, a, k, n, mod):
